@@ -450,6 +450,9 @@ func c12Soak(st *c12State, profile string, seed int64, dur time.Duration, worker
 	}
 	randDirs := func(r *rand.Rand) []string {
 		n := 1 + r.Intn(3)
+		if r.Intn(12) == 0 {
+			return nil // an empty directory list is a legal configuration: writes and removals then fail with an error
+		}
 		perm := r.Perm(len(st.dirs))
 		out := make([]string, n)
 		for i := range out {
